@@ -78,6 +78,7 @@ func runC20(c *Ctx) {
 	r.Rule("R2-immutable-after-publish", "no map mutation through a published htpasswdMap; reload installs a locally built map; Validate compares against the entry it read", 3)
 	r.Rule("R3-atomic-discipline", "UserMap.m only through atomic.LoadPointer/StorePointer; stored maps are not updated afterwards; readers only index", 6)
 	r.Rule("R5-serial-reloads", "reloads are totally ordered and none is skipped: one goroutine, one receive site for watcher events, every received event handed to filterEvent, action() called synchronously; every selected event reloads (shared with C08.R6)", 5)
+	r.Rule("R6-reload-complete", "a reload installs only a non-empty freshly parsed map; the reloaded map is the only basic.Validator implementation", 2)
 	r.Rule("R4-failed-parse-keeps-old", "the swap is reachable only after error-free parsing", 2)
 
 	usersF := c.Field("R1-lock-discipline", "pkg/authentication/basic.htpasswdMap.users")
@@ -310,6 +311,7 @@ func runC20(c *Ctx) {
 	}
 	checkHtpasswdValidate(c, rule)
 	runC20R5(c, "R5-serial-reloads")
+	runC20R6(c, "R6-reload-complete")
 
 	// ---- R3 ---------------------------------------------------------------------------------
 	rule = "R3-atomic-discipline"
@@ -669,4 +671,80 @@ func fieldOfAddr(fa *ssa.FieldAddr) *types.Var {
 		return st.Field(fa.Field)
 	}
 	return nil
+}
+
+// runC20R6: (a) a reload never installs a credential map without a single entry: in loadHTPasswdFile the
+// swap happens only on paths on which the freshly built map was found non-empty (today inside
+// createHtpasswdMap, which pairs a nil error only with len(users) != 0) — an empty or comment-only
+// version read during an in-place rewrite must leave the old contents in force; (b) the only
+// implementation of basic.Validator is the reloaded map itself: a wrapper (cache, memo) in front of it
+// keeps answering from contents a completed reload has replaced.
+func runC20R6(c *Ctx, rule string) {
+	create := c.Fn(rule, "pkg/authentication/basic.createHtpasswdMap")
+	usersF := c.Field(rule, "pkg/authentication/basic.htpasswdMap.users")
+	if create != nil && usersF != nil {
+		c.Walk(rule, create, func(p *walk.Path) {
+			ev, ok := p.ReturnDV(1)
+			if !ok || !DefinitelyNil(p, ev, p.End()) {
+				return
+			}
+			key := "non-empty|" + fnKey(create)
+			nonEmpty := false
+			for _, a := range p.Atoms(p.End()) {
+				b, ok := a.DV.V.(*ssa.BinOp)
+				if !ok || a.IsNil {
+					continue
+				}
+				k, isConst := ConstInt(b.Y)
+				lc, isCall := p.Resolve(p.Op(b.X, a.DV)).V.(*ssa.Call)
+				if !isConst || !isCall {
+					continue
+				}
+				if bi, ok := lc.Call.Value.(*ssa.Builtin); !ok || bi.Name() != "len" || !walk.IsFieldLoad(p.Resolve(p.Op(lc.Call.Args[0], p.Resolve(p.Op(b.X, a.DV)))).V, usersF) {
+					continue
+				}
+				switch {
+				case (b.Op == token.EQL || b.Op == token.NEQ) && k == 0 && !a.Val:
+					nonEmpty = true
+				case b.Op == token.GTR && k == 0 && a.Val:
+					nonEmpty = true
+				}
+			}
+			if nonEmpty {
+				c.ok(rule, key, p.Exit, "a nil error only for a map with at least one entry")
+			} else {
+				c.bad(rule, key, p.Exit, "createHtpasswdMap reports success for a file without a single valid entry: a reload that catches an empty or comment-only version swaps in an empty map and every user is locked out until the next change", p, p.End())
+			}
+		})
+	}
+	// (b) implementations of basic.Validator
+	vT := c.P.Named("pkg/authentication/basic.Validator")
+	if vT == nil {
+		c.R.Unknown(rule, "anchor:basic.Validator", "-", "interface not found")
+		return
+	}
+	iface := vT.Underlying().(*types.Interface)
+	n := 0
+	for _, pk := range c.P.SortedMod() {
+		scope := c.P.Mod[pk].Types.Scope()
+		for _, name := range scope.Names() {
+			tn, ok := scope.Lookup(name).(*types.TypeName)
+			if !ok || tn.IsAlias() || types.IsInterface(tn.Type()) {
+				continue
+			}
+			if !types.Implements(tn.Type(), iface) && !types.Implements(types.NewPointer(tn.Type()), iface) {
+				continue
+			}
+			n++
+			key := "validator-impl|" + pk + "." + name
+			if pk == "pkg/authentication/basic" && name == "htpasswdMap" {
+				c.R.OK(rule, key, c.P.Pos(tn.Pos()), "the reloaded credential map itself")
+			} else {
+				c.R.Bad(rule, key, c.P.Pos(tn.Pos()), "a second implementation of basic.Validator ("+pk+"."+name+"): whatever it answers from (a cache, a copy) is not replaced when the htpasswd file is reloaded", nil, nil)
+			}
+		}
+	}
+	if n == 0 {
+		c.R.Unknown(rule, "validator-impl|none", "-", "no implementation of basic.Validator found")
+	}
 }
